@@ -259,6 +259,44 @@ func famTree(o *Out, r R, tier string) {
 			emitWith("siblings/n="+strconv.Itoa(cnt), pats, probes)
 		}
 	}
+	// many ports under one (host, scheme) and many schemes under one host (boundary counts; sorted, reverse, random)
+	for _, cnt := range []int{2, 7, 8, 9, 15, 16, 17, 18, 31, 32, 33} {
+		for k := 0; k < nsib; k++ {
+			host := r.pick([]string{"example.com", "*.example.com", "localhost", "a.b.example.org"})
+			base := strings.TrimPrefix(host, "*.")
+			sub := ""
+			if base != host {
+				sub = "x."
+			}
+			var pats, probes []string
+			perm := r.Perm(cnt)
+			switch k % 3 {
+			case 0:
+				for i := range perm {
+					perm[i] = i
+				}
+			case 1:
+				for i := range perm {
+					perm[i] = cnt - 1 - i
+				}
+			}
+			if k%2 == 0 { // ports
+				for _, i := range perm {
+					port := 1000 + 37*i
+					pats = append(pats, "https://"+host+":"+strconv.Itoa(port))
+					probes = append(probes, "https://"+sub+base+":"+strconv.Itoa(port), "https://"+sub+base+":"+strconv.Itoa(port+1), "http://"+sub+base+":"+strconv.Itoa(port))
+				}
+				probes = append(probes, "https://"+sub+base, "https://"+sub+base+":999", "https://"+sub+base+":65535")
+			} else { // schemes
+				for _, i := range perm {
+					sch := "s" + string(rune('a'+i/26)) + string(rune('a'+i%26))
+					pats = append(pats, sch+"://"+host+r.pick([]string{"", ":81", ":*"}))
+					probes = append(probes, sch+"://"+sub+base, sch+"://"+sub+base+":81", sch+"x://"+sub+base, sch[:2]+"://"+sub+base)
+				}
+			}
+			emitWith("fanout/n="+strconv.Itoa(cnt), pats, probes)
+		}
+	}
 	if tier == "thorough" { // every permutation of some 5-element lists
 		for i := 0; i < 40; i++ {
 			pats := make([]string, 5)
